@@ -3,7 +3,10 @@
    gets codes.InvalidArgument).  Added with the repair of O-10.  The session manager's own requests
    (createSession, session.delete) go through the unexported writeBlock and are not validated.
 
-     puts     key must not start with "__oxia/";  with sequence deltas: partition key present, first delta > 0
+     puts     key must not start with "__oxia/";  with sequence deltas: partition key present, first delta > 0;
+              every declared secondary index must be representable by the index key layout (repair O-45):
+              index name non-empty without '/', secondary key non-empty with every byte above the separator
+              "\x01"; a record with an empty key (and no sequence deltas) declares no index
      deletes  key must not start with "__oxia/"
      ranges   not (start = "" and end = "")  (Pebble drops or keeps two empty bounds depending on a pooled
               buffer: on the real DB the request is a no-op, wipes the shard, or fails on a notification
@@ -36,12 +39,22 @@ Definition range_excludes_internal (start_ end_ : key) : bool :=
       end
   end.
 
+(* validateSecondaryIndex *)
+Definition validate_sindex (si : sindex) : bool :=
+  negb (match si_name si with [] => true | _ => false end) && negb (existsb (N.eqb 47%N) (si_name si)) &&
+  negb (match si_key si with [] => true | _ => false end) && forallb (fun c => (1 <? c)%N) (si_key si).
+
+Definition validate_put_indexes (p : put_req) : bool :=
+  forallb validate_sindex (p_indexes p) &&
+  negb (match p_indexes p, p_key p, p_deltas p with _ :: _, [], [] => true | _, _, _ => false end).
+
+(* (the order of the conjuncts is immaterial: only accept / reject is observable) *)
 Definition validate_put (p : put_req) : bool :=
   negb (is_internal (p_key p)) &&
   match p_deltas p with
-  | [] => true
+  | [] => validate_put_indexes p
   | d0 :: _ =>
-      (match p_partition p with Some _ => true | None => false end) && negb (d0 =? 0)%N
+      ((match p_partition p with Some _ => true | None => false end) && validate_put_indexes p) && negb (d0 =? 0)%N
   end.
 
 Definition validate_delete (d : del_req) : bool := negb (is_internal (d_key d)).
